@@ -395,7 +395,9 @@ def save_score_midi(
 
         def to_ppq(t):
             # convert div times to new ppq
-            return int(ppq * (qm(t) - ftp))
+            # (round, do not truncate: the float product of e.g. a triplet
+            # position can fall just below the integer tick it denotes)
+            return int(round(ppq * (qm(t) - ftp)))
 
         for tp in part.iter_all(score.Tempo):
             tempos[to_ppq(tp.start.t)] = MetaMessage(
